@@ -509,6 +509,7 @@ type pathSpec struct {
 	onReturn         func(rt *ssa.Return) string // optional: rendered into the end of a returning path
 	symbolicLoopPhis bool                        // do not bind the phis of loop headers (they stay symbolic: the iteration variable)
 	inlineAll        bool                        // enter every module helper (small functions whose atoms only show under the substitution)
+	reentrant        bool                        // events are fully resolved when emitted: a helper may be entered again on a path although a value of its first frame escaped
 }
 
 func (sp *pathSpec) relevant(P *Prog, fn *ssa.Function) bool {
@@ -804,7 +805,7 @@ func (pe *pathEnum) inlinable(ci *callInfo, stack []inlFrame) *ssa.Function {
 		if pe.spec.keep != nil && pe.spec.keep(fn) {
 			return nil
 		}
-		if pe.escaped[fn] {
+		if pe.escaped[fn] && !pe.spec.reentrant {
 			pe.imprecise = true
 			return nil
 		}
